@@ -194,6 +194,15 @@ def real_replay(ob, cex):
     if built is None:
         return None
     text, (exp_env, exp) = built
+    if ob.fn == 'h_option_string':
+        # second half of the obligation: the split itself must be what /bin/sh does with the string
+        o = cex['args'][0]
+        if not any(ch in o for ch in '\\"$`'):
+            with cf.Scratch() as sc:
+                real = cf.real_sh('prog ' + o, sc.dir, 0, 'prog')
+            if isinstance(real[0], dict) and real[1] != exp:
+                return {'reproduced': True, 'detail': {'option_string': o, 'bfg9000_split': exp[1:],
+                                                       'real_sh_split': real[1][1:]}}
     stub = exp[0]
     if '/' in stub or stub in ('', '.', '..') or stub in cf.SH_BUILTINS:
         return None
